@@ -17,6 +17,22 @@ open Spec
 
 def unesc (s : String) : String := (s.replace "\\n" "\n").replace "\\s" " "
 
+/-- `to_dimacs` of a CNF that did not come from a text (no clauses, empty clauses, after
+conditioning): the printed clause lines, read by the specification reader, are the CNF's clauses -/
+def checkSerToDimacs (okv : List (String × String)) : String := Id.run do
+  let some cnf := (lookup okv "cnf").bind parseCnf | return "FAIL PARSE cnf"
+  let some printedE := lookup okv "printed" | return "FAIL PARSE printed"
+  let printed := unesc printedE
+  match Spec.Text.parseDimacs printed with
+  | some again =>
+    let setOf (c : Clause) := (c.map fun l => (l.var, l.pol)).eraseDups
+    let sameSets := again.length == cnf.length &&
+      (again.zip cnf).all fun (a, b) => (setOf a).all (setOf b).contains && (setOf b).all (setOf a).contains
+    if !sameSets then return s!"FAIL SPEC to_dimacs: the printed clause lines {printedE} do not read back as the {cnf.length} clause(s) of the CNF ({again.length} read)"
+  | none => return "FAIL SPEC to_dimacs: the printed clause lines are not parseable"
+  if Ser.toDimacs cnf != printed then return "FAIL MODEL to_dimacs text"
+  return s!"ok nontrivial={if cnf.length > 1 then 1 else 0}"
+
 def checkSerDimacs (kvs okv : List (String × String)) : String := Id.run do
   let some textE := lookup kvs "text" | return "FAIL PARSE text"
   let text := unesc textE
@@ -110,6 +126,7 @@ def checkSerLine (kvs : List (String × String)) (rhs : String) : String :=
   if rhs.startsWith "panic:" then s!"FAIL SPEC parsing/serialisation panicked: {rhs}" else
   let okv := splitKV rhs
   match lookup kvs "kind" with
+  | some "todimacs" => checkSerToDimacs okv
   | some "dimacs" => checkSerDimacs kvs okv
   | some "sexpr" => checkSerSexpr kvs okv
   | some "bdd" => checkSerBdd kvs okv
